@@ -11,7 +11,7 @@ import json
 
 from .common import HarnessError, Violation, ensure_gwf_on_path
 from .loop import Clock, SimLoop
-from .proc import PROXY, ProcTable
+from .proc import OS_PROXY, PROXY, ProcTable
 
 ensure_gwf_on_path()
 from gwf.backends import local as L  # noqa: E402
@@ -291,6 +291,10 @@ class PoolWorld:
         self._saved_asyncio = L.asyncio
         L.asyncio = PROXY
         PROXY._table = self.table
+        OS_PROXY._table = self.table
+        self._saved_os = L.__dict__.get("os")
+        if self._saved_os is not None:
+            L.os = OS_PROXY
         if self.memfs is not None:
             L.open = self.memfs.open
         return self
@@ -298,6 +302,9 @@ class PoolWorld:
     def __exit__(self, *exc):
         L.asyncio = self._saved_asyncio
         PROXY._table = None
+        OS_PROXY._table = None
+        if self._saved_os is not None:
+            L.os = self._saved_os
         if self.memfs is not None and "open" in L.__dict__:
             del L.open
         # cancel whatever is left so that no "never awaited"/"pending task" noise leaks out
